@@ -92,12 +92,12 @@ target("breezy/bzr/pack_repo.py::RepositoryPackCollection.plan_autopack_combinat
        raises={},     # no IndexError, no AssertionError, nothing escapes
        canary=lambda c: Len(c.result) == 0,
        equivalent_mutants={
-           "drop:Expr@L659:8": "dropping the sort: the property does not depend on the order in which packs are considered (the proof never uses sortedness)",
-           "cmp0:GtE@L668:15": ">= to > on the keep/combine choice: ties go to the other branch, the plan stays well-formed (all obligations still discharge)",
-           "cmp0:GtE@L684:19": ">= to > on closing a bucket: the plan stays well-formed",
-           "int1@L695:35": "the single-pack assertion is dead code (a plan has >= 2 packs), changing its constant is unobservable",
-           "drop:Raise@L696:12": "dead code: the AssertionError is unreachable",
-           "retnone@L699:12": "dead code after the raise"})
+           r"drop:Expr.*\| existing_packs\.sort\(": "dropping the sort: the property does not depend on the order in which packs are considered (the proof never uses sortedness)",
+           r"cmp0:GtE.*\| if next_pack_rev_count >= pack_distribution\[0\]": ">= to > on the keep/combine choice: ties go to the other branch, the plan stays well-formed (all obligations still discharge)",
+           r"cmp0:GtE.*\| if pack_operations\[-1\]\[0\] >= pack_distribution\[0\]": ">= to > on closing a bucket: the plan stays well-formed",
+           r"int1.*\| if len\(final_pack_list\) == 1": "the single-pack assertion is dead code (a plan has >= 2 packs), changing its constant is unobservable",
+           r"drop:Raise.*\| raise AssertionError\(": "dead code: the AssertionError is unreachable",
+           r"retnone.*\| return \[\]$": "dead code after the raise"})
 
 assume_note("CombinedGraphIndex.key_count() equals the sum of the packs' revision counts, so the planner's "
             "precondition Sum(counts) == Sum(distribution) holds at its only call site (_do_autopack)")
